@@ -80,6 +80,10 @@ def install_models(I):
     I.hooks["method"] = lambda I, p, r, n, a, k: (lambda x: x if x is not _MISSING else (prev(I, p, r, n, a, k) if prev else _MISSING))(
         method(I, p, r, n, a, k))
 
+    import copy
+    # copy.deepcopy(x) is a value equal to x (C14 speaks about values; freshness is C12's subject)
+    I.builtin_models[copy.deepcopy] = lambda I, path, a, k: a[0]
+
     def m_bytes(I, path, a, k):
         if a and isinstance(a[0], SV):
             r = uw.uf("bytes", 1)(a[0].t)
